@@ -458,7 +458,7 @@ func c02d(c *Ctx) {
 							}
 							recvFrom := false
 							ast.Inspect(cc.Comm, func(x ast.Node) bool {
-								if u, ok := x.(*ast.UnaryExpr); ok && u.Op == token.ARROW && objOf(info, u.X) == cancelObj {
+								if u, ok := x.(*ast.UnaryExpr); ok && u.Op == token.ARROW && objOf(info, f.copyRoot(u.X)) == cancelObj {
 									recvFrom = true
 								}
 								return true
@@ -499,7 +499,7 @@ func c02d(c *Ctx) {
 				continue
 			}
 			sel, _ := ast.Unparen(call.Fun).(*ast.SelectorExpr)
-			if sel == nil || !owner.isOwnParam(objOf(info, sel.X), "leaf") {
+			if sel == nil || !owner.isOwnParam(objOf(info, f.copyRoot(sel.X)), "leaf") {
 				c.Bad(inst, s.Pos(), "the entry returned is not derived from the leaf that was submitted")
 				continue
 			}
@@ -523,7 +523,7 @@ func c02d(c *Ctx) {
 				c.Bad(inst, s.Pos(), "the index returned does not add pool.firstLeafIndex")
 				continue
 			}
-			slotObj := objOf(info, stripConv(info, slot))
+			slotObj := objOf(info, f.copyRoot(stripConv(info, slot)))
 			if slotObj == nil {
 				c.Bad(inst, s.Pos(), "the slot added to firstLeafIndex is not a variable: "+exprString(slot))
 				continue
